@@ -194,6 +194,18 @@ func (r *run) sink(ev veriftrace.Event) {
 		if cs := r.pending[sigOf(l.Op, l.D, l.Names)]; cs != nil && cs.served == nil {
 			l.C = cs.c
 			cs.served = l
+		} else {
+			// no call in progress asked exactly this: attribute the step to the call that differs in the
+			// kind of request only (the TLA+ side then sees what was asked and what the loop did)
+			other := "can"
+			if l.Op == "can" {
+				other = "reserve"
+			}
+			if cs := r.pending[sigOf(other, l.D, l.Names)]; cs != nil && cs.served == nil {
+				l.C = cs.c
+				cs.served = l
+				l.Note += "asked as " + other + ";"
+			}
 		}
 		r.cur = l
 		r.add(l)
